@@ -46,6 +46,12 @@ class Any(Base):
     def __repr__(self):
         return "<%s(name=%r)>" % (self.__class__.__name__, self.name)
 
+    @property
+    def default_value(self):
+        if self.accepts_multiple:
+            return []
+        return None
+
     def accept(self, value):
         return True
 
